@@ -10,8 +10,8 @@ from base import *  # noqa
 import geodepy.constants as K
 import geodepy.convert as C
 import geodepy.angles as A
-from tm_oracle import (in_own_zone, mp, mpf, exact_tm, central_meridian, prj_kind, enc_ell, enc_prj, dec_ell, dec_prj,
-                       src_ell, src_prj, any_ellipsoid, any_projection, random_projection, ISG_ZONES,
+from tm_oracle import (in_own_zone, mpf, exact_tm, central_meridian, prj_kind, enc_ell, enc_prj, dec_ell, dec_prj,
+                       src_ell, src_prj, any_ellipsoid, any_projection, ISG_ZONES,
                        run_chunks, attach_measured, Sub, rerun_replay, show_replay)
 
 TOL_M = mpf('0.0002')          # 0.2 mm, property C01
@@ -58,8 +58,8 @@ def pick_omega(rng, zw):
 
 
 def gen_case(rng, prj=None, ell=None):
-    """(lat, lon, zone argument, expected-zone-or-None, ell, prj): lon in [-180, 180), explicit zone with
-    |lon - CM| <= 30 or automatic zone (0) for a longitude inside the projection's 60-zone coverage"""
+    """(lat, lon, zone argument, ell, prj): lon in [-180, 180); an explicit zone with |lon - CM| <= 30, or the
+    automatic choice (0) for a longitude inside one of the projection's zones"""
     ell = ell or any_ellipsoid(rng)
     prj = prj or any_projection(rng)
     zw = float(prj.zonewidth)
@@ -275,8 +275,8 @@ def run(p):
     last_double_below_180(p)
     t = p.tier == 'thorough'
     run_chunks(p, [
-        (chunk_exact, 'exact', 64 if t else 8, p.n(25, 400)),
-        (chunk_exact_shipped, 'exact-shipped', 32 if t else 4, p.n(25, 300)),
+        (chunk_exact, 'exact', 64 if t else 8, p.n(25, 300)),
+        (chunk_exact_shipped, 'exact-shipped', 32 if t else 4, p.n(25, 200)),
         (chunk_zone, 'zone', 16 if t else 1, p.n(1200, 12000)),
         (chunk_hemisphere, 'hemisphere', 16 if t else 1, p.n(900, 8000)),
         (chunk_angles, 'angles', 16 if t else 1, p.n(200, 2500)),
